@@ -86,6 +86,17 @@ class C20(Check):
             for nt in (8, 16):
                 cases.append(("clonethreads %s %d %s %d %d %d" % (hexs(data), 1 if pw else 0, hexs(pw or b""), nt, r.randrange(1 << 30), rounds),
                               dict(k="threads", impl_only=True)))
+        # data_start() of a held entry must not move while other handles open the same entry in any way: successfully,
+        # raw, with a wrong password, or an entry of a method the crate cannot decode (implementation-only scripts:
+        # op 3 = report data_start, op 4 = by_index_raw)
+        U = genzip.build([Entry(b"u0", txt[:50]), Entry(b"odd", b"abc", method=1, payload=b"\x01\x02\x03\x04"), Entry(b"u2", txt[:70], method=8)])[0]
+        self._ds_sets_builder = lambda X_: [
+            (B, b"pw", [(0, 0, 0), (0, 3, 0), (1, 4, 0), (0, 3, 0), (1, 2, 0), (0, 3, 0), (0, 1, 500)]),
+            (B, b"no", [(0, 4, 0), (0, 3, 0), (1, 0, 0), (0, 3, 0), (1, 0, 1), (0, 3, 0)]),
+            (U, None, [(0, 4, 1), (0, 3, 0), (1, 0, 1), (0, 3, 0), (1, 0, 0), (0, 3, 0), (1, 0, 2), (0, 3, 0)]),
+            (A, None, [(0, 0, 2), (0, 3, 0), (1, 4, 2), (0, 3, 0), (1, 0, 2), (0, 3, 0)]),
+            (X_, None, [(0, 0, 1), (0, 3, 0), (1, 4, 1), (0, 3, 0), (2, 0, 1), (0, 3, 0), (1, 1, 10), (0, 3, 0)]),
+        ]
         # interleavings at I/O-call granularity: handle A is stopped in front of each of its read/seek calls while a second
         # clone opens and reads the same entry (entries with and without local extra fields, all methods, encrypted)
         X = genzip.build([Entry(b"x0", txt[:80], extra_local=struct.pack("<HH", 0xcafe, 6) + b"abcdef"),
@@ -96,6 +107,8 @@ class C20(Check):
         wl = wprog.line([("file", b"w0", Opts(large=True)), ("write", b"large flag placeholder"), ("aligned", b"w1", Opts(), 64), ("write", b"aligned data"),
                          ("extra", b"w2", Opts(method=8)), ("write", struct.pack("<HH", 0xcafe, 3) + b"xyz"), ("endextra",), ("write", b"after extra " * 9), ("finish",)])
         W = wprog.final_bytes(run_lines(exe, [wl], shards=1)[0])[1]
+        for data, pw, steps in self._ds_sets_builder(X):
+            cases.append((line(data, pw, steps), dict(k="ds", impl_only=True)))
         for data, pw in ((X, None), (W, None), (A, None), (B, b"pw")):
             if data:
                 cases.append(("clonegate %s %d %s" % (hexs(data), 1 if pw else 0, hexs(pw or b"")), dict(k="gate", impl_only=True)))
@@ -105,6 +118,19 @@ class C20(Check):
         if out is None or "PANIC" in out or out.startswith("ABORT") or out == "TIMEOUT":
             return "panic or process death: %s" % (out or "")[:200]
         p = _parse_obs(out)
+        if meta["k"] == "ds":
+            obs = p[0]
+            seen = {}
+            steps = [tuple(int(x) for x in t) for t in zip(*[iter(line.split()[4:])] * 3)]
+            for (h, op, arg), o in zip(steps, obs):
+                if op in (0, 4):
+                    seen[h] = o[-1] if isinstance(o, list) and o[0] == "Ok" else None
+                elif op == 3 and isinstance(o, list) and o[0] == "DS":
+                    if seen.get(h) is not None and o[1] != seen[h]:
+                        return "data_start() of an entry held open by handle %d moved from %s to %s while another handle used the archive" % (h, seen[h], o[1])
+                elif op == 2:
+                    seen[h] = None
+            return None
         if meta["k"] == "gate":
             if not isinstance(p[0], list) or len(p[0]) != 3:
                 return "unexpected output " + out[:120]
